@@ -168,6 +168,9 @@ def add_run_stats(st, run, an, windows, label):
         st['windows'].append('|'.join(w))
     st['unknown_lines'] += an.unknown_lines
     st['boards'] += getattr(an, 'complete_boards', 0)
+    g = getattr(an, 'stats', {}).get('c11_observation_gaps')
+    if g:
+        st['extra']['harness_observation_gaps'] = st['extra'].get('harness_observation_gaps', 0) + g
     if WANT_RUN_DIGESTS[0]:
         st.setdefault('run_digests', []).append(run.digest)
     nb = len((run.scn or {}).get('boards') or ())
